@@ -195,7 +195,9 @@ def apply_op(op, st, r):
         for (p, o) in list(gene.mutations)[:8]:
             gene.get_functional((p, o)), gene.get_functional((p, "A>N")), gene.get_rsid((p, o)), gene.get_refseq((p, o)), gene.get_refseq(p, o, from_atg=True)
             gene.region_at(p), gene.has_coverage(next(iter(gene.alleles)), p), gene[p], gene[p - 2:p + 3], (p in gene)
-            gene.is_functional((p, o), False), gene._reverse_op(o)
+            gene.is_functional((p, o), False)
+            if not (o.startswith("del") and "ins" in o[3:]):   # the helper is documented not to support deletion-insertions
+                gene._reverse_op(o)
         gene.deletion_allele(), gene.get_wide_region(), str(gene)
         for a in list(gene.alleles.values())[:5]:
             for mn in list(a.minors)[:3]:
